@@ -56,6 +56,7 @@ def gen(rng, tier):
     for i in range(24 if not big else 400):
         anchor = rng.choice(["pub", "auth", None, "nocal"])
         s = S.build(rng, with_cal=anchor != "nocal", anchor=None if anchor == "nocal" else anchor, with_rfc=rng.random() < 0.1)
+        s.cal_first = rng.random() < 0.25         # the calendar chain may be the first element of the signature
         t = s.chains[0].time
         root = aggregation_root(s)
         pa = s.cal.pub_time if s.cal else t
@@ -76,6 +77,7 @@ def gen(rng, tier):
         st = rng.choice([0x101, 0x102, 0x103, 0x104, 0x105, 0x106, 0x107, 0x200, 0x201, 0x202, 0x300, 0x301, 1, 0x7fffffff])
         yield line(s, to, None, ver, R(status=st), "status-not-zero")
         yield line(s, to, None, ver, R(cal=None, status=st), "status-not-zero")
+        yield line(s, to, None, ver, R(status=rng.choice([1 << 32, 2 << 32, 1 << 40, 1 << 63, 0x101 << 32])), "status-not-zero")   # zero in its low 32 bits only
         yield line(s, to, None, ver, R(with_status=False), "status-absent")
         yield line(s, to, None, ver, R(with_status=False, rid=7), "status-absent")
         yield line(s, to, None, ver, R(cal=None), "no-calendar-chain")
